@@ -9,3 +9,4 @@ INVARIANTS
 POSTCONDITION TraceAccepted
 CHECK_DEADLOCK FALSE
 ALIAS TraceAlias
+VIEW TraceView
